@@ -1,4 +1,5 @@
 import SqlProofs.FilterSpec
+import SqlProofs.StripCommentsSpec
 /-!
 # C08 — targeted filters change exactly their target tokens and nothing else
 
@@ -23,5 +24,10 @@ theorem truncate_leaves_others : type_of% @truncate_untouched := @truncate_untou
 theorem truncate_idempotent : type_of% @truncate_idem := @truncate_idem
 /-- `strip_comments` removes only comment leaves and inserts only whitespace leaves -/
 theorem strip_comments_keeps_everything_else : type_of% @stripComments_preserves_noncomment := @stripComments_preserves_noncomment
+
+/-- after `strip_comments` every comment-typed leaf left in the tree is a hint — on trees whose Comment groups are flat and whose lists have no two adjacent non-hint
+comment siblings (`noNhPairs`; the exception is known finding KF-C08-6: a comment pair at the start of a list or after `(`) -/
+theorem strip_comments_only_hints_remain : type_of% @stripComments_only_hints_remain := @stripComments_only_hints_remain
+theorem strip_comments_level_survivors : type_of% @stripCommentsLevel_survivors := @stripCommentsLevel_survivors
 
 end Sql.C08
